@@ -30,11 +30,11 @@ func (fr *Frame) libModel(fn *ssa.Function, full string, args []Val, st *State, 
 		return v, cur, true
 	}
 	bigval := func() *Term { return c.heapGet(st, c.bigvalName()) }
-	bv := func(i int) *Term { return tSelect(bigval(), T(i)) }
-	setBig := func(ref, val *Term) { c.heapSet(st, c.bigvalName(), tStore(bigval(), ref, val)) }
+	bv := func(i int) *Term { return c.sel(bigval(), T(i)) }
+	setBig := func(ref, val *Term) { c.heapSet(st, c.bigvalName(), c.sto(bigval(), ref, val)) }
 	realval := func() *Term { return c.heapGet(st, c.realvalName()) }
-	rv := func(i int) *Term { return tSelect(realval(), T(i)) }
-	setReal := func(ref, val *Term) { c.heapSet(st, c.realvalName(), tStore(realval(), ref, val)) }
+	rv := func(i int) *Term { return c.sel(realval(), T(i)) }
+	setReal := func(ref, val *Term) { c.heapSet(st, c.realvalName(), c.sto(realval(), ref, val)) }
 	newBig := func(val *Term, hint string) *Term {
 		r := c.allocRef(st, g, hint)
 		setBig(r, val)
@@ -162,10 +162,10 @@ func (fr *Frame) libModel(fn *ssa.Function, full string, args []Val, st *State, 
 			return done(args[0])
 		case "SetString":
 			nonNil(0)
-			c.declareFun("str.big", []Sort{SStr, SInt}, SInt)
-			c.declareFun("str.bigok", []Sort{SStr, SInt}, SBool)
-			ok := app(SBool, "str.bigok", T(1), T(2))
-			v := app(SInt, "str.big", T(1), T(2))
+			c.declareFun("gstr.big", []Sort{SStr, SInt}, SInt)
+			c.declareFun("gstr.bigok", []Sort{SStr, SInt}, SBool)
+			ok := app(SBool, "gstr.bigok", T(1), T(2))
+			v := app(SInt, "gstr.big", T(1), T(2))
 			setBig(T(0), tIte(ok, v, bv(0)))
 			return done(Val{Tuple: []Val{tv(tIte(ok, T(0), intLit(0))), tv(ok)}})
 		case "BitLen":
